@@ -12,6 +12,7 @@ use std::io::{BufRead, Write};
 mod dump;
 mod ops_float;
 mod ops_format;
+mod ops_format2;
 mod ops_parse;
 mod ops_pos;
 mod ops_repr;
